@@ -386,14 +386,14 @@ def run_history(source, nsteps=None):
     return ops, wires, recs
 
 
-def build_values(rng, n_hist, steps=8, kinds=(0,), odd=False, weights=None, unicode_=True, maxlen=8):
+def build_values(rng, n_hist, steps=8, kinds=(0,), odd=False, weights=None, unicode_=True, maxlen=8, esc=0.0):
     """live objects built by random histories (for direct tests): -> list of (object, history that built the pool)"""
     from .hist import HistGen
     w = weights or {'new': 3, 'from': 0.5, 'apply': 8, 'remove': 2, 'iadd': 2, 'add': 1.5, 'slice': 1.5, 'pad': 0.7,
                     'assign': 0.5, 'replace': 0.7, 'clip': 0.5}
     out = []
     for _ in range(n_hist):
-        hg = HistGen(rng, weights=w, kinds=kinds, odd=odd, unicode_=unicode_, maxlen=maxlen)
+        hg = HistGen(rng, weights=w, kinds=kinds, odd=odd, unicode_=unicode_, maxlen=maxlen, esc=esc)
         pool = Pool()
         ops = []
         for t in range(steps):
